@@ -124,6 +124,8 @@ def to_nested(X, naming="var"):
 
 
 def container(X, kind, naming="var"):
+    if kind == "numpyF":  # Fortran-ordered 3D array (e.g. a transposed view handed in by a caller)
+        return np.asfortranarray(to_numpy3d(X))
     return to_numpy3d(X) if kind == "numpy" else to_nested(X, naming)
 
 
